@@ -140,6 +140,7 @@ LEVEL_TEXT = ("Theorems over DBus/De.v (mirror of zvariant's D-Bus deserializer 
               "(C02) — every valid encoding is accepted with the value it denotes; together `accept <-> valid encoding`. The real decoder is "
               "run on valid encodings, their mutations and random bytes and must agree with the model and with the specification's decision "
               "procedure.")
-LEVEL_NOTE = ("Two defects of the pinned tree were repaired by fix: commits (string terminator not checked; object paths inside dynamic "
-              "values not validated); the model follows the repaired code. Dynamic-Value target only; typed targets share the same "
+LEVEL_NOTE = ("Three defects of the pinned tree were repaired by fix: commits (string terminator not checked; object paths inside dynamic "
+              "values not validated; a variant's signature not required to be one complete type); the model follows the repaired code. "
+              "Known finding: the signature parser is more lenient than the D-Bus grammar (class sig_grammar_lenient). Dynamic-Value target only; typed targets share the same "
               "deserializer methods but their visitors (serde derive) are not modelled.")
